@@ -172,3 +172,21 @@ pub fn request_stop() {
 pub fn should_stop() -> bool {
     STOP.load(std::sync::atomic::Ordering::SeqCst)
 }
+
+static PROGRESS: std::sync::Mutex<Option<PathBuf>> = std::sync::Mutex::new(None);
+/// The worker names the case it is about to run in `<out>/shard-<i>.progress` (overwritten each time) wherever the
+/// code under test may end the whole process (allocation failure on a corrupted length, stack exhaustion): the
+/// driver attributes a death by signal to that case.
+pub fn set_progress_file(p: PathBuf) {
+    *PROGRESS.lock().unwrap() = Some(p);
+}
+pub fn progress(prop_key: &str, what: &str, witness: &Value) {
+    if let Some(p) = PROGRESS.lock().unwrap().as_ref() {
+        let _ = std::fs::write(p, serde_json::to_string(&json!({"key": prop_key, "what": what, "witness": witness})).unwrap_or_default());
+    }
+}
+pub fn progress_done() {
+    if let Some(p) = PROGRESS.lock().unwrap().as_ref() {
+        let _ = std::fs::remove_file(p);
+    }
+}
